@@ -137,6 +137,7 @@ def gen_case(rng, kind=None):
         case['leg'] = leg.spec()
         case['leg2'] = leg2.spec()
         case['cplx'] = rng.random() < 0.4
+        case['single'] = rng.random() < 0.3         # float32 / complex64 tensors (valid tensors of the library as well)
     else:
         raise ValueError(kind)
     return case
@@ -186,6 +187,8 @@ class Rec:
         except Exception as e:
             bad = [('invariant-check-raises', '%s: %s' % (type(e).__name__, str(e)[:100]))]
         for kind, text in bad:
+            if seen and (kind == 'own-sanity-raises' or (kind == 'test_sanity:dtype' and 'block-dtype' in seen)):
+                continue        # the tensor's own check repeats what the recomputation found
             if kind not in seen:
                 seen.add(kind)
                 self.fail('C02', opname, cond, kind, '%s: %s' % (role, text))
@@ -567,8 +570,6 @@ def run_flatop(case, R):
                 continue            # documented ValueError
             if compact and dim == 0:
                 continue            # no block of that charge: nothing to restrict to
-            if sec is None and not sorted_bunched:
-                continue            # NOT generated: all sectors at once on a leg that is not sorted and bunched (flat_to_npc raises in its own test_sanity)
             f163 = qc == -1 and not compact and scls == 'sector!=-sector'
             f164 = sec is None and labels is not None
             cond = 'qconj=%+d,%s,%s' % (qc, 'compact' if compact else 'noncompact', scls)
@@ -630,6 +631,10 @@ def run_flatop(case, R):
                     R.stat('nontrivial')
                 # ---- flat -> npc -> flat
                 x = rand_vec(nrng, dim, cplx)
+                if sec is None and not sorted_bunched:
+                    R.stat('flatop:sector=None,leg-not-sorted-and-bunched')
+                    if none_sector_unsorted(R, npc, op, x):
+                        continue
                 v = call('flat_to_npc', op.flat_to_npc, x)
                 full = np.zeros(n, dtype=x.dtype)
                 full[idx] = x
@@ -684,6 +689,37 @@ def run_flatop(case, R):
                             R.inv(V, clsname + '.eigenvectors', cond)
             except Abort:
                 continue
+
+
+def none_sector_unsorted(R, npc, op, x, clsname='FlatLinearOperator'):
+    """charge_sector=None (all sectors at once; documented for every leg) on a leg that is not sorted and bunched: the tensor flat_to_npc builds
+    must be consistent at every optimization level.  flat_to_npc ends with the tensor's own test_sanity(), which is skipped at the highest
+    level ('skip_arg_checks') only: when the call raises, the tensor it built is fetched at that level and judged by the invariant oracle.
+    Returns True when a failure was recorded (one match key for the situation)."""
+    from tenpy.tools import optimization
+    cond = 'charge_sector=None,leg-not-sorted-and-bunched'
+    R.api('sparse.FlatLinearOperator.flat_to_npc')
+    try:
+        with warnings.catch_warnings():
+            warnings.simplefilter('ignore')
+            op.flat_to_npc(x)
+        return False            # returned: the ordinary checks of the caller judge the result
+    except Exception as e:
+        raised = '%s: %s' % (type(e).__name__, str(e)[:100])
+    try:
+        with optimization.temporary_level(optimization.OptimizationFlag.skip_arg_checks):
+            v = op.flat_to_npc(x)
+        bad = G.check_array_invariants(v, R.mods)
+    except Exception as e:
+        R.fail('C02', clsname + '.flat_to_npc', cond, 'raises-' + type(e).__name__, 'also with the argument checks switched off: %s' % str(e)[:150])
+        return True
+    if bad:
+        R.fail('C02', clsname + '.flat_to_npc', cond, 'invalid-tensor', 'the tensor built by flat_to_npc is inconsistent (%s): returned as it is at optimization level '
+               'skip_arg_checks, rejected by its own test_sanity() below that (%s); leg charges %s' % (
+                   '; '.join('%s: %s' % b for b in bad[:3])[:400], raised, np.asarray(op.leg.charges).tolist()))
+    else:
+        R.fail('C02', clsname + '.flat_to_npc', cond, 'raises', 'raises %s although the tensor it builds is consistent' % raised)
+    return True
 
 
 def check_vec(R, npc, v, opname, cond, secv, dense, leg, ref):
@@ -863,13 +899,19 @@ def run_linalg(case, R):
     nrng = np.random.RandomState(case['seed'] % (2 ** 31))
     np.random.seed(case['seed'] % (2 ** 31))        # tenpy.linalg.random_matrix draws from the global numpy state
     cplx = case['cplx']
+    single = bool(case.get('single', False))
+    dt = np.dtype({(False, False): np.float64, (True, False): np.complex128, (False, True): np.float32, (True, True): np.complex64}[(cplx, single)])
+    tolx = 2e-4 if single else 1e-10
+    prec = ',single-precision' if single else ''
+    if single:
+        R.stat('linalg:single-precision')
     rL, rL2 = G.leg_from_spec(case['leg'], q), G.leg_from_spec(case['leg2'], q)
     L, L2 = G.mk_leg(env, case['leg']), G.mk_leg(env, case['leg2'])
     zero = G.mv(mods, np.zeros(q, dtype=QT))
 
     def rnd(shape):
         a = nrng.standard_normal(shape)
-        return a + 1j * nrng.standard_normal(shape) if cplx else a
+        return (a + 1j * nrng.standard_normal(shape) if cplx else a).astype(dt)
 
     def guarded(opname, cond, f, *a, **kw):
         R.api(opname)
@@ -888,7 +930,8 @@ def run_linalg(case, R):
             return False
         return True
 
-    def dense_is(x, want, opname, cond, prop='C01', tol=1e-10):
+    def dense_is(x, want, opname, cond, prop='C01', tol=None):
+        tol = tolx if tol is None else tol
         got = x.to_ndarray()
         if not close(got, want, tol):
             R.fail(prop, opname, cond, 'wrong-values', 'dense form differs from the documented result (max deviation %.3g)' % (
@@ -933,12 +976,15 @@ def run_linalg(case, R):
             dense_is(x, d, 'Array.from_ndarray_trivial', None, 'C02', 0.)
     except Abort:
         pass
-    Td = np.where(al, rnd(al.shape), 0.)
+    Td = np.where(al, rnd(al.shape), 0.).astype(dt)
     T = None
     try:
         R.op('Array.from_ndarray/detect_qtotal/detect_legcharge')
         T = guarded('np_conserved.Array.from_ndarray', 'qtotal=None', npc.Array.from_ndarray, Td, [L, L2], qtotal=None, labels=['a', 'b'])
         if not R.inv(T, 'Array.from_ndarray', 'qtotal=None'):
+            T = None
+        elif T.dtype != dt:
+            R.fail('C02', 'Array.from_ndarray', 'qtotal=None', 'dtype', 'dtype %s of the tensor built from a %s ndarray' % (T.dtype, dt))
             T = None
         elif np.count_nonzero(Td):
             qt_is(T, qt, 'Array.from_ndarray', 'qtotal=None', 'detected from the entries')
@@ -962,14 +1008,14 @@ def run_linalg(case, R):
         pass
     # ---------------- 2. methods of Array not reached by the program generator
     sqL = signed_qflat(rL, mods)
-    Sd = np.where(allowed_mask([rL, rL.conj()], mods, zero), rnd((rL.n, rL.n)), 0.)
+    Sd = np.where(allowed_mask([rL, rL.conj()], mods, zero), rnd((rL.n, rL.n)), 0.).astype(dt)
     Sd = Sd + Sd.conj().T
     S = npc.Array.from_ndarray(Sd, [L, L.conj()], labels=['v', 'v*'])
     sec = sqL[rng.randrange(rL.n)]
     secmask = np.all(sqL == sec[None, :], axis=1) if q else np.ones(rL.n, dtype=bool)
 
     def vec():
-        d = np.where(secmask, rnd(rL.n), 0.)
+        d = np.where(secmask, rnd(rL.n), 0.).astype(dt)
         return d, npc.Array.from_ndarray(d, [L], qtotal=sec, labels=['v'])
 
     try:
@@ -1056,12 +1102,30 @@ def run_linalg(case, R):
         try:
             R.op('svd')
             iq = rng.choice([1, -1])
-            full = False        # NOT generated: full_matrices=True (registered defects F05.1 / F05.2 of property C05)
+            full = rng.random() < 0.3       # exactness / unitarity of the full form: property C05 (F05.1); here: the factors are consistent tensors
             lr = rng.choice(['none', 'L', 'R'])
             qL = pick_qtotal(rng, [rL], mods)
             qlr = {'none': [None, None], 'L': [qL, None], 'R': [None, qL]}[lr]
             cond = 'inner_qconj=%+d,%s,qtotal_LR=%s' % (iq, 'full' if full else 'reduced', lr)
-            U, s_, VH = guarded('np_conserved.svd', cond, npc.svd, T, full_matrices=full, qtotal_LR=qlr, inner_labels=['i', 'i*'], inner_qconj=iq)
+            if full:
+                # total charges the two factors are documented to get; both square factors of the full form consist of diagonal blocks
+                wantR = qt if lr == 'none' else G.mv(mods, qt - qL) if lr == 'L' else qL
+                wantL = G.mv(mods, qt - wantR)
+                nonzero = bool(np.any(wantL != 0) or np.any(wantR != 0))
+                cond = 'full_matrices=True,' + ('qtotal_L-or-qtotal_R!=0' if nonzero else 'qtotal_LR=0')
+                R.stat('svd:' + cond)
+                try:
+                    R.api('np_conserved.svd')
+                    U, s_, VH = npc.svd(T, full_matrices=True, qtotal_LR=qlr, inner_labels=['i', 'i*'], inner_qconj=iq)
+                except ValueError as e:
+                    if not nonzero:
+                        R.fail('C02', 'np_conserved.svd', cond, 'raises-ValueError', str(e)[:150])
+                    raise Abort()       # a refusal of total charges the full form cannot carry returns no tensor: nothing to check
+                except Exception as e:
+                    R.fail('C02', 'np_conserved.svd', cond, 'raises-' + type(e).__name__, '%s\n%s' % (str(e)[:150], traceback.format_exc()[-700:]))
+                    raise Abort()
+            else:
+                U, s_, VH = guarded('np_conserved.svd', cond, npc.svd, T, full_matrices=full, qtotal_LR=qlr, inner_labels=['i', 'i*'], inner_qconj=iq)
             okU, okV = R.inv(U, 'svd', cond, role='U'), R.inv(VH, 'svd', cond, role='VH')
             if okU and okV:
                 qt_is(VH, G.mv(mods, qt - np.asarray(U.qtotal)), 'svd', cond, 'U.qtotal + VH.qtotal = a.qtotal')
@@ -1071,7 +1135,7 @@ def run_linalg(case, R):
                     qt_is(VH, qL, 'svd', cond, 'qtotal_LR[1]')
                 else:
                     qt_is(VH, qt, 'svd', cond, 'default [None, a.qtotal]')
-                if VH.legs[0].qconj != iq:
+                if not full and VH.legs[0].qconj != iq:
                     R.fail('C02', 'svd', cond, 'inner-qconj', 'VH.legs[0].qconj = %d' % VH.legs[0].qconj)
                 if not same_leg(U.legs[0], rL, mods) or not same_leg(VH.legs[1], rL2, mods):
                     R.fail('C02', 'svd', cond, 'legs', 'outer legs differ from the legs of a')
@@ -1118,15 +1182,17 @@ def run_linalg(case, R):
     try:
         R.op('eigh/eig/expm/polar')
         if R.inv(S, 'Array.from_ndarray', None):
-            W, V = guarded('np_conserved.eigh', blocked, npc.eigh, S)
-            if R.inv(V, 'eigh', blocked):
+            # eigh and eig share one worker: one name for both in single precision (the eigenvector blocks keep the precision of the input
+            # while the tensor is created with the documented double precision type)
+            W, V = guarded('np_conserved.eigh', blocked + prec, npc.eigh, S)
+            if R.inv(V, 'eigh|eig' if single else 'eigh', blocked + prec):
                 qt_is(V, zero, 'eigh', blocked, '0')
                 if not same_leg(V.legs[0], rL, mods):
                     R.fail('C02', 'eigh', blocked, 'legs', 'first leg of V differs from the first leg of a')
-            Nd = np.where(allowed_mask([rL, rL.conj()], mods, zero), rnd((rL.n, rL.n)), 0.)
+            Nd = np.where(allowed_mask([rL, rL.conj()], mods, zero), rnd((rL.n, rL.n)), 0.).astype(dt)
             N = npc.Array.from_ndarray(Nd, [L, L.conj()], labels=['v', 'v*'])
-            W, V = guarded('np_conserved.eig', blocked, npc.eig, N)
-            if R.inv(V, 'eig', blocked):
+            W, V = guarded('np_conserved.eig', blocked + prec, npc.eig, N)
+            if R.inv(V, 'eigh|eig' if single else 'eig', blocked + prec):
                 qt_is(V, zero, 'eig', blocked, '0')
             E = guarded('np_conserved.expm', blocked, npc.expm, N)
             if R.inv(E, 'expm', blocked) and qt_is(E, zero, 'expm', blocked, '0'):
@@ -1143,9 +1209,9 @@ def run_linalg(case, R):
     try:
         R.op('gram_schmidt')
         vs = [vec()[1] for _ in range(rng.choice([2, 3]))]
-        if rng.random() < 0.3:
-            vs.append(vs[0].copy())         # linearly dependent: documented to be dropped
-        out = guarded('krylov_based.gram_schmidt', None, krylov_based.gram_schmidt, vs)
+        if rng.random() < 0.3 and not single:
+            vs.append(vs[0].copy())         # linearly dependent: documented to be dropped (threshold meant for double precision)
+        out = guarded('krylov_based.gram_schmidt', None, krylov_based.gram_schmidt, vs, **({'rcond': 1e-5} if single else {}))
         for o in out:
             if R.inv(o, 'gram_schmidt', None):
                 qt_is(o, sec, 'gram_schmidt', None, 'unchanged')
